@@ -118,6 +118,7 @@ structure G where
       4 = this very transition already executed in this event -/
   cur : Nat := 0
   execd : List TRef := []             -- transitions executed while the current event is processed
+  maxExec : Nat := 0                  -- the largest number of transitions executed within one event so far
   enteredWhileLive : Bool := false
   exitedWhileDead : Bool := false
   enteredThenExited : Bool := false
@@ -164,7 +165,7 @@ def gstep (cfg : NCfg) (g : G) (e : GEv) : G :=
       eteRepeated := g.eteRepeated || (g.entered.contains p && g.cur == 4),
       exitBeforeChild := g.exitBeforeChild || g.live.any fun q => properPrefix p q }
   | .exec r =>
-    { g with execd := g.execd ++ [r], cur := if g.execd.contains r then 4 else match srcOf cfg r with
+    { g with execd := g.execd ++ [r], maxExec := max g.maxExec (g.execd.length + 1), cur := if g.execd.contains r then 4 else match srcOf cfg r with
         | some src => if !g.live.contains src then 2 else if g.exited.contains src then 3 else 1
         | none => 0 }
   | .fin _ mask => { g with entered := [], exited := [], cur := 0, execd := [], finBad := g.finBad || !finOk cfg g.live mask }
